@@ -395,10 +395,13 @@ constexpr auto operator-(QuantityPoint<U1, R1> p1, QuantityPoint<U2, R2> p2) {
 }
 
 #if defined(__cpp_impl_three_way_comparison) && __cpp_impl_three_way_comparison >= 201907L
+// Bring both inputs to their common unit and rep first, exactly as the other comparison operators
+// do: standard library types (such as `std::tuple`) build their own `operator<` out of this one,
+// and the answer must not depend on which of the two gets called.
 template <typename U1, typename R1, typename U2, typename R2>
 constexpr auto operator<=>(const QuantityPoint<U1, R1> &lhs, const QuantityPoint<U2, R2> &rhs) {
-    using U = CommonPointUnitT<U1, U2>;
-    return lhs.in(U{}) <=> rhs.in(U{});
+    return detail::using_common_point_unit(
+        lhs, rhs, detail::ThreeWayCompareUnderlyingValues{});
 }
 #endif
 
